@@ -171,3 +171,226 @@ def decode_serve_range1(form, vals):
         "kind": "serve", "method": METHODS.get(method, "GET"), "headers": headers,
         "entity": ent_json(d), "now_secs": d["now_secs"], "scripts": scripts, "polls": 10,
     }
+
+
+IR_HEADERS = {"other": '"b"', "weak": 'W/"a"'}
+
+
+def decode_serve_cfg(cfg, vals):
+    """serve_cfg(): EntDraw | 3 x (a:u64 b:u64) | script. `cfg` are the harness constants."""
+    r = Reader(vals)
+    d = read_ent(r)
+    d["etag"] = {"none": 0, "strong": 1, "weak": 2, "comma": 3}[cfg["etag"]]
+    d["has_mtime"] = cfg["has_mtime"]
+    d["nhdr"] = cfg["nhdr"]
+    rs = [(r.u64(), r.u64()) for _ in range(3)]
+    scripts = read_script(r, False)
+    headers = []
+    if cfg["parse"] == "unsat":
+        # any range set that selects nothing
+        headers.append(["range", "bytes=%d-" % d["len"]])
+    elif cfg["parse"] == "sat":
+        specs = []
+        for (a, b) in rs[: cfg["nranges"]]:
+            if not (a < b <= d["len"]):
+                return None
+            specs.append("%d-%d" % (a, b - 1))
+        headers.append(["range", "bytes=" + ", ".join(specs)])
+    ir = cfg["ir"]
+    if ir == "same":
+        headers.append(["if-range", ETAGS.get(d["etag"]) or '"a"'])
+    elif ir in IR_HEADERS:
+        headers.append(["if-range", IR_HEADERS[ir]])
+    elif ir == "date":
+        future = (d["m_secs"], d["m_nanos"]) > (d["now_secs"], d["now_nanos"])
+        headers.append(["if-range", {"http_date": d["now_secs"] if future else d["m_secs"]}])
+    method = {"GET": "GET", "HEAD": "HEAD", "POST": "POST", "EXT": "X7"}[cfg["method"]]
+    return {
+        "kind": "serve", "method": method, "headers": headers,
+        "entity": ent_json(d), "now_secs": d["now_secs"], "scripts": scripts, "polls": 14,
+    }
+
+
+def decode_precond(arms, vals):
+    """precond_gNN: sk:u16 has_mtime:bool m_secs:u64 m_nanos:u32 ius:u64 ims:u64"""
+    r = Reader(vals)
+    sk = r.u16()
+    has_mtime = r.boolean()
+    m_secs, m_nanos, ius, ims = r.u64(), r.u32(), r.u64(), r.u64()
+    if sk >= len(arms):
+        return None
+    a = arms[sk]
+    headers = []
+    if a["im"] is not None:
+        headers.append(["if-match", a["im"]])
+    if a["inm"] is not None:
+        headers.append(["if-none-match", a["inm"]])
+    if a["has_ius"]:
+        headers.append(["if-unmodified-since", {"http_date": ius}])
+    if a["has_ims"]:
+        headers.append(["if-modified-since", {"http_date": ims}])
+    now = max(m_secs, ius, ims) + 10
+    return {
+        "kind": "serve", "method": "GET", "headers": headers,
+        "entity": {"len": 10, "etag": ETAGS.get(a["etag"]),
+                   "mtime": {"secs": m_secs, "nanos": m_nanos} if has_mtime else None, "headers": [["content-type", "text/plain"]]},
+        "now_secs": now, "polls": 6,
+    }
+
+
+def read_array(r, n):
+    """[u8; n] drawn with one kani::any(): either one n-byte item or n one-byte items."""
+    if r.i < len(r.vals) and len(r.vals[r.i]) == n and n != 1:
+        v = r.vals[r.i]
+        r.i += 1
+        return list(v)
+    return [r.u8() for _ in range(n)]
+
+
+def decode_body(short, vals, meta):
+    """exactlen_honour / exactlen_fault: len:u64 | 4 x (kind:u8 n:u64)"""
+    if not short.startswith("exactlen_"):
+        return None
+    faulty = short.endswith("fault")
+    r = Reader(vals)
+    length = r.u64()
+    evs = []
+    for _ in range(4):
+        kind, n = r.u8(), r.u64()
+        k = EV_KINDS_FAULTY[kind % 4] if faulty else EV_KINDS_HONOUR[kind % 3]
+        ev = {"k": k}
+        if k == "chunk":
+            ev["n"] = n
+        evs.append(ev)
+    return {
+        "kind": "serve", "method": "GET", "headers": [],
+        "entity": {"len": length, "etag": None, "mtime": None, "headers": []},
+        "faulty": faulty, "scripts": [evs], "polls": 12,
+    }
+
+
+def decode_etag(short, vals, meta):
+    """etag_match_sym: buf:[u8;9] n:usize e:[u8;6] ne:usize has_etag:bool -> two requests"""
+    if short != "etag_match_sym":
+        return None
+    r = Reader(vals)
+    buf = read_array(r, 9)
+    n = r.usize()
+    e = read_array(r, 6)
+    ne = r.usize()
+    has = r.boolean()
+    if n > 9 or ne > 6:
+        return None
+    hv = buf[:n]
+    etag = e[:ne] if has else None
+    out = []
+    for name in ("if-match", "if-none-match"):
+        out.append({
+            "kind": "serve", "method": "GET", "headers": [[name, hv]],
+            "entity": {"len": 10, "etag": etag, "mtime": None, "headers": []}, "polls": 6,
+        })
+    return out
+
+
+def weight_text(w, ok):
+    if not ok:
+        return "2"
+    if w >= 1000:
+        return "1.000"
+    return "0.%03d" % w
+
+
+def decode_ae(short, vals, meta):
+    r = Reader(vals)
+    if short.startswith("ae_sk_"):
+        sk = r.u16()
+        ws = []
+        for _ in range(3):
+            w, ok = r.u16(), r.boolean()
+            ws.append((w, ok))
+        arms = meta["sk"][short]
+        if sk >= len(arms):
+            return None
+        text = arms[sk]["text"]
+        for k, ph in enumerate(meta["placeholders"]):
+            text = text.replace(ph, weight_text(*ws[k]))
+        return {"kind": "should_gzip", "accept_encoding": text}
+    if short.startswith("ae_lex_"):
+        sk = r.u16()
+        arms = meta["lex"][short]
+        if sk >= len(arms):
+            return None
+        return {"kind": "should_gzip", "accept_encoding": arms[sk]["bytes"]}
+    if short == "qvalue_sym":
+        buf = read_array(r, 6)
+        n = r.usize()
+        if n > 6:
+            return None
+        return {"kind": "should_gzip", "accept_encoding": list(b"gzip;q=") + buf[:n]}
+    if short == "ae_absent":
+        return {"kind": "should_gzip", "accept_encoding": None}
+    return None
+
+
+SB_AE = {"sb_build_absent": None, "sb_build_gzip": "gzip", "sb_build_identity": "identity", "sb_build_gzip_q0": "gzip;q=0",
+         "sb_build_star": "*", "sb_build_pref_gzip": "identity;q=0.5, gzip;q=1.0", "sb_build_pref_identity": "identity;q=1.0, gzip;q=0.5",
+         "sb_build_others": "br, deflate", "sb_build_empty": ""}
+
+
+def decode_gzip(short, vals, meta):
+    r = Reader(vals)
+    if short in SB_AE:
+        method, level, chunk, as_parts, set_level = r.u8(), r.u32(), r.usize(), r.boolean(), r.boolean()
+        sc = {"kind": "streaming", "method": ["GET", "HEAD", "POST"][method % 3], "accept_encoding": SB_AE[short],
+              "chunk_size": chunk, "parts": as_parts,
+              "ops": [{"op": "write_all", "data": [97, 98, 99, 100, 101]}, {"op": "flush"}, {"op": "drop_writer"}]}
+        if set_level:
+            sc["gzip_level"] = level
+        return sc
+    if short == "sb_dead_after_abort":
+        gz = r.boolean()
+        n = r.usize()
+        data = [1, 2, 3][:n]
+        return {"kind": "streaming", "method": "GET", "accept_encoding": "gzip" if gz else None, "chunk_size": 2,
+                "ops": [{"op": "write", "data": data}, {"op": "abort"}, {"op": "write", "data": data}, {"op": "flush"}]}
+    return None
+
+
+CH_OPS = {0: "write", 1: "flush", 2: "poll", 3: "abort", 4: "write_all", 5: "nop"}
+
+
+def decode_chunker(short, vals, meta):
+    """chunker_*: N_OPS(4) x (kind:u8 len:u8 wk:u8) | data:[u8;20] | N_SCHED(6) x (n:u8 wk:u8) [| at:usize]"""
+    import re
+    m = re.search(r"cap(\d)", short)
+    if not m:
+        return None
+    cap = int(m.group(1))
+    r = Reader(vals)
+    ops_raw = [(r.u8(), r.u8(), r.u8()) for _ in range(4)]
+    data = read_array(r, 20)
+    sched = [(r.u8(), r.u8()) for _ in range(6)]
+    drop_at = None
+    if "body_drop" in short:
+        drop_at = r.usize()
+    ops = []
+    off = 0
+    for i, (kind, ln, wk) in enumerate(ops_raw):
+        if drop_at is not None and drop_at == i:
+            ops.append({"op": "drop_body"})
+        name = CH_OPS.get(kind, "nop")
+        if name in ("write", "write_all"):
+            if off + ln <= 20:
+                ops.append({"op": name, "data": data[off:off + ln]})
+                off += ln
+        elif name == "poll":
+            ops.append({"op": "poll", "n": 1, "waker": wk})
+        elif name in ("flush", "abort"):
+            ops.append({"op": name})
+    ops.append({"op": "drop_writer"})
+    return {"kind": "streaming", "method": "GET", "accept_encoding": None, "chunk_size": cap, "ops": ops,
+            "schedule": [{"polls": n, "waker": wk} for n, wk in sched], "final_polls": 16}
+
+
+def decode_dir(short, vals, meta):
+    return None
